@@ -2524,6 +2524,11 @@ class CencSampleEncryptionBox(FullBox):
             kwargs['options'].log.warning('Failed to find saiz box')
             kwargs['error'] = 'Failed to find required saiz box'
             return rv
+        if num_entries > TrackFragmentRunBox.MAX_SAMPLE_COUNT:
+            # samples without auxiliary data (a saiz box without a size table
+            # and a default size of zero) take no space in this box, so
+            # nothing else limits this loop
+            raise ValueError(f'senc: num_entries {num_entries} is too large')
         for i in range(num_entries):
             if saiz.sample_info_sizes:
                 size = saiz.sample_info_sizes[i]
